@@ -187,14 +187,18 @@ def parseExponent (r : Str) : Option Int :=
       else some (if sd.1 then - (Int.ofNat (digitsVal sd.2)) else Int.ofNat (digitsVal sd.2))
     else none
 
+/-- the optional fraction of a decimal literal: (fraction digits, what follows) -/
+def fracPart (r1 : Str) : Str × Str :=
+  match r1 with
+  | '.' :: t => (t.takeWhile isDigit, t.dropWhile isDigit)
+  | t => ([], t)
+
 /-- unsigned decimal literal `digits [. digits] [e±digits]` → (mantissa as an integer, number of fraction
     digits, exponent); `none` if malformed -/
 def parseUnsignedDecimal (body : Str) : Option (Nat × Nat × Int) :=
   let ip := body.takeWhile isDigit
   let r1 := body.dropWhile isDigit
-  let fr : Str × Str := match r1 with
-    | '.' :: t => (t.takeWhile isDigit, t.dropWhile isDigit)
-    | t => ([], t)
+  let fr : Str × Str := fracPart r1
   if ip.isEmpty && fr.1.isEmpty then none
   else match parseExponent fr.2 with
     | none => none
